@@ -113,6 +113,23 @@ func Big() []Scenario {
 	}
 }
 
+// Wide returns scenarios with many goroutines looking up different modules at once.
+func Wide() []Scenario {
+	many := func(n, clients int, goModEvery int) [][]Lookup {
+		var th [][]Lookup
+		for i := 0; i < n; i++ {
+			th = append(th, []Lookup{L(i%clients, 20+i, goModEvery > 0 && i%goModEvery == 0)})
+		}
+		return th
+	}
+	return []Scenario{
+		{Name: "wide-17-lookups", Height: 2, Preload: pre(10), Stored: true, Clients: 1, Threads: many(17, 1, 0)},
+		{Name: "wide-33-lookups-h8", Height: 8, Preload: pre(10, 11, 12), Stored: true, Clients: 1, Threads: many(33, 1, 3)},
+		{Name: "wide-65-lookups-empty-config", Height: 3, Clients: 1, Threads: many(65, 1, 0)},
+		{Name: "wide-40-lookups-two-clients", Height: 2, Preload: pre(10), Stored: true, Clients: 2, Threads: many(40, 2, 0)},
+	}
+}
+
 // ForkScenarios are the C13 schedule scenarios: two clients share a compare-and-swap config
 // while their servers present forks of the same prefix, or the same log at different sizes.
 func ForkScenarios() []Scenario {
@@ -125,7 +142,7 @@ func ForkScenarios() []Scenario {
 }
 
 func Find(name string) (Scenario, bool) {
-	for _, s := range append(append(All(), ForkScenarios()...), Big()...) {
+	for _, s := range append(append(append(All(), ForkScenarios()...), Big()...), Wide()...) {
 		if s.Name == name {
 			return s, true
 		}
